@@ -36,6 +36,20 @@ var thirdParty = []string{
 	"math/rand/v2", "github.com/x/y/internal/select", "github.com/acme/2fa", "github.com/acme/otp/2fa", "github.com/acme/lang/type",
 }
 
+// import paths with a vendor directory in them: what go/types reports for a vendored dependency in GOPATH mode
+// (<importer>/vendor/<import path>), std's own vendored packages (vendor/golang.org/x/..), packages that merely live in a
+// directory called vendor.  To the naming system a path is a path: such a package is one more package, distinct from the
+// package with the path below the vendor directory, and every reference to it uses the name IT was registered under.
+var vendored = []string{
+	"example.com/app/vendor/github.com/pkg/errors", "github.com/acme/mod/vendor/golang.org/x/text/language", "example.com/app/internal/vendor/lib",
+	"a.com/vendor/b.org/vendor/c.net/pkg", "a.com/x/vendor", "vendor/golang.org/x/net/http/httpguts", "vendor/golang.org/x/crypto/cryptobyte",
+	"a.com/vendor/v2", "a.com/vendor/go", "k8s.io/kubernetes/vendor/k8s.io/api/core/v1", "example.com/app/vendor/example.com/domain/user",
+	"a.com/vendor/errors", "a.com/vendor/time", "a.com/vendor/math/rand", "b.org/vendor/foo-bar", "a.com/vendor/vendor/x", "a.com/vendor", "vendor",
+	"example.com/m/vendor/example.com/m/self", "a.com/x/vendor/string", "a.com/Vendor/x", "a.com/vendored/x", "a.com/_vendor/x",
+}
+
+var vendorDirs = []string{"/vendor/", "/vendor/", "/vendor/", "/internal/vendor/", "/third_party/vendor/", "/vendor/vendor/", "/x/vendor/y/vendor/"}
+
 var hosts = []string{"a.com", "b.org", "a.com/x", "example.com/m", "github.com/acme/mod"}
 
 // segments engineered to clash or to give unusable names
@@ -67,7 +81,7 @@ var predeclSegs = []string{"string", "error", "any", "int", "bool", "len", "new"
 	"uint8", "uintptr", "complex128", "append", "cap", "make", "max", "min", "panic", "print", "recover", "comparable", "clear", "copy", "delete", "real", "imag", "close", "println", "complex"}
 var oddSegs = []string{"go", "type", "func", "map", "range", "select", "import", "package", "var", "chan", "default", "interface",
 	"2fa", "3d", "9", "007", "1x", "v2", "v1", "v10", "v0", "v", "v1beta1", "v-1", "v+2", "v99999999999999999999", "apis", "domain", "api",
-	"_", "-", "--", "__", "x--y", "_x", "x_", ".x", "a.b", "a..b", "_-", "~", "string", "error", "len", "pkg", "pkg2", "internal"}
+	"_", "-", "--", "__", "x--y", "_x", "x_", ".x", "a.b", "a..b", "_-", "~", "string", "error", "len", "pkg", "pkg2", "internal", "vendor", "vendor"}
 var plainSegs = []string{"core", "meta", "user", "order", "store", "model", "client", "server", "alpha", "beta", "x", "y", "z", "pkg", "lib"}
 var malformedPaths = []string{"", "/", "//", "a//b", "a.com/", "/a", "a.com/ /x", "a.com/x y", "a.com/x\ty", "a.com/é", "日本/語", "a.com/ünï", "a.com/x[1]", "a.com/a,b",
 	"a.com/x.", ".", "..", "a.com/́x", "a.com/٣x", "a.com/ǅx", "a.com/x\x7f", "a.com/\x00", "a.com/x\"y", "a.com/x\\y", "-", "_", "9", "go", "type"}
@@ -137,6 +151,33 @@ func (g *gen) pool(malformed bool) []string {
 			}
 		case k < 16: // single-segment paths
 			pool = append(pool, g.seg())
+		case k < 18: // a vendor directory in the path: a fixed one, or a vendored copy of another path (which is in the pool too, half of the time)
+			if g.r.Chance(40) {
+				pool = append(pool, core.Pick(g.r, vendored))
+				break
+			}
+			var below string
+			switch g.r.Intn(4) {
+			case 0:
+				if len(g.std) > 0 {
+					below = core.Pick(g.r, g.std)
+					break
+				}
+				fallthrough
+			case 1:
+				below = core.Pick(g.r, thirdParty)
+			case 2:
+				below = core.Pick(g.r, hosts) + "/" + core.Pick(g.r, core.Pick(g.r, clashWords))
+			default:
+				below = g.seg()
+			}
+			pool = append(pool, core.Pick(g.r, hosts)+core.Pick(g.r, vendorDirs)+below)
+			if g.r.Chance(50) {
+				pool = append(pool, below)
+			}
+			if g.r.Chance(25) { // vendored twice, by two importers
+				pool = append(pool, core.Pick(g.r, hosts)+"/v2"+core.Pick(g.r, vendorDirs)+below)
+			}
 		default: // random depth
 			d := 1 + g.r.Intn(4)
 			p := core.Pick(g.r, hosts)
@@ -202,6 +243,42 @@ func (g *gen) pipelineHistory() input {
 	}
 }
 
+// the same, spread over 2-5 tagged types; for one to three of them the generator ends with ErrSkip (sometimes ErrIgnore,
+// or renders through Defer) after it rendered its lines
+func (g *gen) pipelineTypesHistory() input {
+	in := g.pipelineHistory()
+	nt := 2 + g.r.Intn(4)
+	left := len(in.Ops)
+	for k := 0; k < nt; k++ {
+		n := 0
+		if k == nt-1 {
+			n = left
+		} else if left > 0 {
+			n = g.r.Intn(min(left, 4) + 1)
+		}
+		left -= n
+		t := typeIn{N: n, Alias: g.r.Chance(15)}
+		switch e := g.r.Intn(20); {
+		case e < 9:
+			t.End = "skip"
+		case e < 11:
+			t.End = "ignore"
+		case e < 13:
+			t.End = "defer"
+		}
+		in.Types = append(in.Types, t)
+	}
+	if !rendersNormally(in) { // some type is generated normally, so that the file is written
+		for k := range in.Types {
+			if in.Types[k].N > 0 {
+				in.Types[k].End = ""
+				break
+			}
+		}
+	}
+	return in
+}
+
 func (g *gen) history(malformed bool, selfs ...string) input {
 	pool := g.pool(malformed)
 	self := "example.com/m/self"
@@ -265,6 +342,62 @@ func (g *gen) history(malformed bool, selfs ...string) input {
 	return in
 }
 
+// references to packages whose path has a vendor directory in it: as heads through every entry point, as type arguments,
+// as elements of type literals, next to the package with the path below the vendor directory, as the own package
+func vendorCorners() []input {
+	ven := "example.com/app/vendor/github.com/pkg/errors"
+	ref := func(via, path, name string, args ...node) opIn {
+		return opIn{K: "ref", Via: via, Path: path, Name: name, Args: args}
+	}
+	return []input{
+		refs("example.com/m", ven),
+		refs("example.com/m", ven, "github.com/pkg/errors", "errors"),
+		refs("example.com/m", "github.com/pkg/errors", ven, "a.com/vendor/github.com/pkg/errors"),
+		refs("example.com/m", "vendor/golang.org/x/net/http/httpguts", "golang.org/x/net/http/httpguts", "a.com/x/vendor", "a.com/vendor", "vendor"),
+		refs("example.com/m", "a.com/vendor/b.org/vendor/c.net/pkg", "c.net/pkg", "b.org/vendor/c.net/pkg", "example.com/app/internal/vendor/lib", "lib"),
+		refs("example.com/m", "a.com/vendor/time", "time", "a.com/vendor/math/rand", "math/rand", "a.com/vendor/go", "a.com/vendor/v2", "a.com/vendor/string"),
+		refs("github.com/pkg/errors", ven, "github.com/pkg/errors"),
+		refs(ven, ven, "github.com/pkg/errors"),
+		{Self: "example.com/m", Ops: []opIn{
+			ref("id", "example.com/o", "Box", node{Path: ven, Name: "Frame"}),
+			ref("namer", "example.com/o", "Pair", node{Path: "github.com/pkg/errors", Name: "Frame"}, node{Path: ven, Name: "Frame"}),
+			ref("expose", ven, "New"), ref("obj", ven, "Frame"), ref("idobj", "a.com/vendor/b.org/vendor/c.net/pkg", "T"),
+			{K: "lit", Shape: "map", Elems: []node{{Path: ven, Name: "Frame"}, {Path: "example.com/o", Name: "List", Args: []node{{Path: "k8s.io/kubernetes/vendor/k8s.io/api/core/v1", Name: "Pod"}}}}},
+			{K: "lit", Shape: "struct", Elems: []node{{Path: "example.com/app/internal/vendor/lib", Name: "T"}, {Path: "vendor/golang.org/x/net/http/httpguts", Name: "T"}}}}},
+		{Self: "example.com/m", Ops: []opIn{
+			ref("id", ven, "Box", node{Path: ven, Name: "Flag"}, node{Name: "int"}, node{Path: "example.com/m", Name: "Own"}),
+			ref("namer", "example.com/m", "Own", node{Path: ven, Name: "Flag", Args: []node{{Path: "a.com/vendor/errors", Name: "E"}}})}},
+		{Self: pipeModule + "/self", Pipeline: true, Ops: []opIn{
+			ref("id", ven, "Frame"), ref("id", "example.com/o", "Box", node{Path: ven, Name: "Flag"}, node{Path: "github.com/pkg/errors", Name: "Frame"}),
+			ref("expose", "a.com/vendor/b.org/vendor/c.net/pkg", "New"), ref("idobj", "example.com/app/internal/vendor/lib", "T"),
+			{K: "lit", Shape: "slice", Elems: []node{{Path: "k8s.io/kubernetes/vendor/k8s.io/api/core/v1", Name: "Pod"}}}}},
+	}
+}
+
+// a generator that renders for several types and gives up on some of them AFTER it has rendered something: the lines
+// of a type it skipped (gengo.ErrSkip) may stay in the file or not, but the import block must be the one of the body
+func pipelineCorners() []input {
+	id := func(path, name string, args ...node) opIn {
+		return opIn{K: "ref", Via: "id", Path: path, Name: name, Args: args}
+	}
+	self := pipeModule + "/self"
+	mk := func(types []typeIn, ops ...opIn) input {
+		return input{Self: self, Pipeline: true, Types: types, Ops: ops}
+	}
+	return []input{
+		// accessor per field, gives up at the third field of T00; T01 is generated normally
+		mk([]typeIn{{N: 2, End: "skip"}, {N: 1}}, id("bytes", "Buffer"), id("a.com/foo-bar", "T"), id("time", "Time")),
+		mk([]typeIn{{N: 1}, {N: 2, End: "skip"}}, id("time", "Time"), id("bytes", "Buffer"), id("time", "Duration")),
+		mk([]typeIn{{N: 1}, {N: 1, End: "skip"}, {N: 1}}, id("a.com/foo-bar", "T"), id("b.org/foo_bar", "T"), id("a.com/foobar", "T")),
+		mk([]typeIn{{N: 1, End: "skip", Alias: true}, {N: 1, Alias: true}}, id("math/rand", "Rand"), id("crypto/rand", "Reader")),
+		mk([]typeIn{{N: 1, End: "skip"}, {N: 0}, {N: 2}}, id("example.com/o", "List", node{Path: "github.com/json-iterator/go", Name: "API"}), id("example.com/o", "Item"), id(self, "Own")),
+		mk([]typeIn{{N: 1, End: "ignore"}, {N: 1}}, id("bytes", "Buffer"), id("time", "Time")),
+		mk([]typeIn{{N: 1, End: "defer"}, {N: 1, End: "skip"}, {N: 1}}, id("a.com/rand", "T"), id("math/rand", "Rand"), id("crypto/rand", "Reader")),
+		mk([]typeIn{{N: 1, End: "skip"}, {N: 1, End: "skip"}}, id("bytes", "Buffer"), id("time", "Time")),
+		mk([]typeIn{{N: 1, End: "skip"}, {N: 1}}, opIn{K: "lit", Shape: "map", Elems: []node{{Path: "net/url", Name: "URL"}, {Path: "example.com/app/vendor/github.com/pkg/errors", Name: "Frame"}}}, opIn{K: "ref", Via: "expose", Path: "net/http", Name: "Get"}),
+	}
+}
+
 func refs(self string, paths ...string) input {
 	in := input{Self: self}
 	for _, p := range paths {
@@ -308,7 +441,9 @@ func (prop) Generate(r *core.RNG, tier string) []json.RawMessage {
 		{Self: "example.com/m", Ops: []opIn{{K: "ref", Via: "id", Path: "example.com/o", Name: "List", Args: []node{{Path: "example.com/p/o", Name: "Item"}, {Name: "int"}, {Path: "example.com/m", Name: "Own"}}}}},
 		{Self: "example.com/m", Ops: []opIn{{K: "lit", Shape: "map", Elems: []node{{Path: "time", Name: "Duration"}, {Path: "example.com/time", Name: "Time", Args: []node{{Path: "a.com/go", Name: "T"}}}}}}},
 	}
+	fixed = append(fixed, vendorCorners()...)
 	fixed = append(fixed, tplCorners()...)
+	fixed = append(fixed, pipelineCorners()...)
 	for _, f := range fixed {
 		out = append(out, marshal(f))
 	}
@@ -325,6 +460,9 @@ func (prop) Generate(r *core.RNG, tier string) []json.RawMessage {
 	}
 	for i := 0; i < np; i++ {
 		out = append(out, marshal(g.pipelineHistory()))
+	}
+	for i := 0; i < np+np/2; i++ {
+		out = append(out, marshal(g.pipelineTypesHistory()))
 	}
 	if tier == "thorough" {
 		// exhaustive small scope: every sequence of length <= 3 over 7 clashing paths (self fixed)
